@@ -318,7 +318,7 @@ func (env *ExprEnv) callExpr(e *ast.CallExpr) Val {
 		if !strings.Contains(nm, "/") {
 			nm = env.pkg + "." + nm
 		}
-		c := t.declare("fn:"+nm, "Int")
+		c := t.funcIDByName(nm)
 		return Val{K: KFunc, S: c}
 	case "clofn":
 		f := arg(0)
@@ -416,7 +416,7 @@ func (env *ExprEnv) callExpr(e *ast.CallExpr) Val {
 		return Val{K: KRef, S: sApp(f, m.S, k.S)}
 	case "extfn": // extfn("pkg/path.Func"): identity of a foreign function as a callee (for ret / ncalls of recorded calls)
 		nm, _ := strconv.Unquote(exprString(e.Args[0]))
-		return Val{K: KFunc, S: t.declare("fn:"+nm, "Int")}
+		return Val{K: KFunc, S: t.funcIDByName(nm)}
 	case "afterdur": // duration given to the last time.AfterFunc call
 		t.regArray("$g:afterdur", "Int")
 		return intVal(t.lookup(env.st, "$g:afterdur"))
